@@ -187,6 +187,36 @@ class CallGraph:
             x = pred.get(x)
         return list(reversed(out))
 
+    def owner_step(self, path):
+        """One step up the ownership relation used for finding keys: a closure belongs to the function that creates it; a
+        function whose only callers (direct calls only - no fn-pointer or trait dispatch) are one other function is a private
+        helper of that function (what `extract method` produces). Returns None when the body has no single owner."""
+        b = self.facts.bodies.get(path)
+        if b is None:
+            return None
+        if b.kind == 'closure':
+            return b.rec.get('parent') if b.rec.get('parent') in self.facts.bodies else None
+        if b.kind not in ('fn', 'method') or re.search(r' as .*>::', path):
+            return None
+        if not hasattr(self, '_rev'):
+            self._rev = collections.defaultdict(set)
+            for c, es in self.edges.items():
+                for (y, kind) in es:
+                    self._rev[y].add((c, kind))
+        callers = set()
+        for c, kind in self._rev.get(path, ()):
+            if c == path:
+                continue
+            if kind not in ('direct',):
+                return None
+            cb = self.facts.bodies.get(c)
+            while cb is not None and cb.kind == 'closure' and cb.rec.get('parent') in self.facts.bodies:
+                c = cb.rec['parent']
+                cb = self.facts.bodies.get(c)
+            callers.add(c)
+        callers.discard(path)
+        return next(iter(callers)) if len(callers) == 1 else None
+
     def callers_of(self, path):
         return sorted(c for c, es in self.edges.items() if any(y == path for (y, _) in es))
 
